@@ -63,6 +63,16 @@ static void one(int w, uint64_t bits) {
     else if (iw == 4) n = cbor_encode_single(cbor_float_get_float4(it), out, 12);
     else n = cbor_encode_half(cbor_float_get_float2(it), out, 12);
     vh_kbytes("enc", out, n);
+    { /* the same encoder into exactly-sized blocks of w bytes (one short) and w + 1 bytes (exact fit) */
+      unsigned char *sblk, *fblk;
+      unsigned char* sb_ = vh_exact_rot((size_t)iw, &sblk);
+      unsigned char* fb_ = vh_exact_rot((size_t)iw + 1, &fblk);
+      size_t ns = iw == 8 ? cbor_encode_double(cbor_float_get_float8(it), sb_, (size_t)iw) : iw == 4 ? cbor_encode_single(cbor_float_get_float4(it), sb_, (size_t)iw) : cbor_encode_half(cbor_float_get_float2(it), sb_, (size_t)iw);
+      size_t nf = iw == 8 ? cbor_encode_double(cbor_float_get_float8(it), fb_, (size_t)iw + 1) : iw == 4 ? cbor_encode_single(cbor_float_get_float4(it), fb_, (size_t)iw + 1) : cbor_encode_half(cbor_float_get_float2(it), fb_, (size_t)iw + 1);
+      vh_kint("enc_short", (long long)ns);
+      vh_kint("enc_fit", (long long)nf);
+      free(sblk); free(fblk);
+    }
     unsigned char* sb = malloc(1 + w);
     size_t sn = cbor_serialize(it, sb, 1 + w);
     vh_kbytes("ser", sb, sn);
@@ -73,7 +83,7 @@ static void one(int w, uint64_t bits) {
     vh_kbytes("built", out, bn);
     if (b2) cbor_decref(&b2);
   } else {
-    fputs(",\"w\":0,\"load\":[],\"gen\":[],\"enc\":[],\"ser\":[],\"built\":[]", vh_out);
+    fputs(",\"w\":0,\"load\":[],\"gen\":[],\"enc\":[],\"enc_short\":-1,\"enc_fit\":-1,\"ser\":[],\"built\":[]", vh_out);
   }
   if (it) cbor_decref(&it);
   fputs("}\n", vh_out);
